@@ -346,6 +346,15 @@ func (eng *Engine) loadContractFile(file string) error {
 			ufSigs[f[0]] = sig
 			continue
 		}
+		if kw == "table" {
+			// table <global> = <spec function> : reads of the constant table are the spec function
+			f := strings.Fields(strings.ReplaceAll(rest, "=", " "))
+			if len(f) != 2 {
+				return errf("table name = specfn")
+			}
+			eng.tables[pkgOfFile(string(data))+"."+f[0]] = f[1]
+			continue
+		}
 		if kw == "axiom" {
 			c, err := parseClause(rest)
 			if err != nil {
@@ -1707,6 +1716,64 @@ func (env *specEnv) call(c *ast.CallExpr) Value {
 			return BoolC(v.Base.Obj != nil && v.Base.Obj.fresh)
 		}
 		return False
+	case "reaches":
+		// reaches(v, s): some pointer or slice reachable from value v refers to the object s lives in
+		var target *Obj
+		switch t := arg(1).(type) {
+		case *Slice:
+			target = t.Base.Obj
+		case *Ptr:
+			target = t.Obj
+		}
+		if target == nil {
+			return False
+		}
+		seen := map[*Obj]bool{}
+		var walk func(v Value) bool
+		walk = func(v Value) bool {
+			switch x := v.(type) {
+			case *Ptr:
+				if x.Obj == nil {
+					return false
+				}
+				if x.Obj == target {
+					return true
+				}
+				if seen[x.Obj] {
+					return false
+				}
+				seen[x.Obj] = true
+				if hv, ok := env.st.heap[x.Obj]; ok {
+					return walk(hv)
+				}
+			case *Slice:
+				return walk(x.Base)
+			case *Struct:
+				for _, f := range x.F {
+					if walk(f) {
+						return true
+					}
+				}
+			case *Array:
+				for _, f := range x.E {
+					if walk(f) {
+						return true
+					}
+				}
+			case *Iface:
+				if x.V != nil {
+					return walk(x.V)
+				}
+			case Tuple:
+				for _, f := range x {
+					if walk(f) {
+						return true
+					}
+				}
+			}
+			return false
+		}
+		return BoolC(walk(arg(0)))
 	case "same_array":
 		a, aok := arg(0).(*Slice)
 		b, bok := arg(1).(*Slice)
